@@ -297,6 +297,8 @@ func c06Run(c *core.Ctx) {
 		}
 		c06One(c, mkCase(src, drive.V74, "E-bytes core"))
 	})
+	// the errors as the command-line tool reports them (-e): each file's errors under that file's path, in order
+	cliExplore(c, "C06", [][]string{{"-p", "-e"}}, []string{"7.4", "5.6"}, cliConfigs(c.Thorough(), false))
 }
 
 func init() {
@@ -307,6 +309,6 @@ func init() {
 			"states/transitions: LALR states and action cells driven; traces = cell programs classified by the reference driver and replayed on the real parser. non-trivial = parsed without crash; distinct by (version, source)",
 		Assume: []string{"goyacc -v describes the automaton compiled into php5.go/php7.go (the drivers' verdicts are replayed on the real parser; disagreement is reported as a violation of (a))"},
 		Run:    c06Run,
-		Replay: replaySrc(c06One),
+		Replay: withCLIReplay(replaySrc(c06One)),
 	})
 }
